@@ -11,6 +11,7 @@ MCImports == [c \in 0..20 |->
                   [] c = 3 -> { <<"pkg">>, <<"pkg", "b">> }
                   [] c = 5 -> { <<"q">>, <<"q", "b">> }
                   [] c = 6 -> { <<"a">> }
+                  [] c = 8 -> { <<"b">> }
                   [] OTHER -> {}]
 
 C1 == MkTree({<<"pkg">>}, (<<"a">> :> 1) @@ (<<"b">> :> 2) @@ (<<"pkg","i">> :> 0) @@ (<<"pkg","b">> :> 4))
@@ -31,7 +32,10 @@ MCInitTreesC3 == {C7, C8}
 MCExclusive == { << <<"a">>, <<"A", "i">> >> }
 MCUniverse3 == { <<"a">>, <<"b">>, <<"A">>, <<"A","i">> }
 \* two plain modules, one importing the other: repeated query / change / query histories
-MCInitTreesC4 == {C7}
+\* 7: a module with a syntax error; 8: "from b import *; y = v" - the importer's first analysis fails
+\* while b is broken, then b is repaired through the project
+C9 == MkTree({}, (<<"a">> :> 8) @@ (<<"b">> :> 7))
+MCInitTreesC4 == {C7, C9}
 MCUniverse4 == { <<"a">>, <<"b">> }
 MCUniverse2 == { <<"a">>, <<"b">>, <<"pkg">>, <<"q">>, <<"pkg","b">>, <<"q","b">> }
 
